@@ -29,7 +29,6 @@ import (
 	"regexp"
 	"runtime"
 	"runtime/debug"
-	"sort"
 	"strconv"
 	"strings"
 	"syscall"
@@ -60,6 +59,7 @@ type Case struct {
 	Cfg    string  `json:"cfg"`
 	Fam    string  `json:"fam"`
 	Tag    string  `json:"tag,omitempty"`  // opcode / precompile a template is about
+	Site   string  `json:"site,omitempty"` // code site a template aims at (part of the signature when the child dies)
 	Kind   string  `json:"kind"`           // call | create | pre
 	To     string  `json:"to,omitempty"`   // call target (default: the contract under test)
 	Code   mon.Hex `json:"code,omitempty"` // code of the contract under test, or init code
@@ -303,11 +303,14 @@ type harness struct {
 	t       *tracker
 	scratch string
 	defined [256]bool
-	minerN  int
+
+	minimized map[string]int
+	baseDB    account.AccountDatabase
+	baseRoot  [3]common.Hash
 }
 
 func boot(r *mon.Run, cfg string) *harness {
-	h := &harness{r: r, cfg: cfg, t: &tracker{}}
+	h := &harness{r: r, cfg: cfg, t: &tracker{}, minimized: map[string]int{}}
 	h.scratch = env.ScratchDir("verif-c11-")
 	env.BootServices(forksFor(cfg))
 	// UNSTAKE / UNSTAKEALL go through the refund manager; with Proposal012 active
@@ -330,6 +333,7 @@ func boot(r *mon.Run, cfg string) *harness {
 		Time:        big.NewInt(1700000000),
 		Difficulty:  big.NewInt(123),
 	}
+	h.initBase()
 	vm.VerifStepHook = h.t.onStep
 	vm.VerifFrameHook = h.t.onFrame
 	h.probe()
@@ -359,37 +363,60 @@ func (h *harness) probe() {
 
 var oneToken = new(big.Int).Exp(big.NewInt(10), big.NewInt(18), nil)
 
-func (h *harness) newState(c *Case) *account.AccountDB {
+// The common part of every pre-state (funded origin, the account under test,
+// the miner registries every real chain has since genesis; optionally the
+// account under test registered as a validator's / proposer's account) is built
+// once per process and committed to an in-memory store; each case opens a fresh
+// AccountDB on that root and adds its own contracts, never committing.
+func (h *harness) initBase() {
 	mem, _ := db.NewMemDatabase()
-	adb, err := account.NewAccountDB(common.Hash{}, account.NewDatabase(mem))
+	h.baseDB = account.NewDatabase(mem)
+	for m := 0; m < 3; m++ {
+		adb, err := account.NewAccountDB(common.Hash{}, h.baseDB)
+		if err != nil {
+			panic(err)
+		}
+		adb.SetBalance(originAddr, new(big.Int).Mul(oneToken, big.NewInt(1000000000)))
+		adb.SetNonce(originAddr, 1)
+		adb.SetNonce(targetAddr, 1)
+		adb.SetBalance(targetAddr, new(big.Int).Mul(oneToken, big.NewInt(100000)))
+		mk := func(id byte, typ byte, stake uint64, acct []byte) *types.Miner {
+			mid := make([]byte, 32)
+			mid[0], mid[31] = 0xaa, id
+			return &types.Miner{Id: mid, PublicKey: []byte{1, 2, 3, id}, VrfPublicKey: []byte{4, 5, 6, id}, Type: typ, Stake: stake, Account: acct, Status: common.MinerStatusNormal}
+		}
+		service.MinerManagerImpl.InsertMiner(mk(1, common.MinerTypeValidator, 400, common.HexToAddress("0x00000000000000000000000000000000000000d1").Bytes()), adb)
+		service.MinerManagerImpl.InsertMiner(mk(2, common.MinerTypeProposer, 2000, common.HexToAddress("0x00000000000000000000000000000000000000d2").Bytes()), adb)
+		switch m {
+		case 1:
+			service.MinerManagerImpl.InsertMiner(mk(3, common.MinerTypeValidator, 1000, targetAddr.Bytes()), adb)
+		case 2:
+			service.MinerManagerImpl.InsertMiner(mk(4, common.MinerTypeProposer, 5000, targetAddr.Bytes()), adb)
+		}
+		root, err := adb.Commit(true)
+		if err != nil {
+			panic(err)
+		}
+		h.baseRoot[m] = root
+	}
+}
+
+func (h *harness) newState(c *Case) *account.AccountDB {
+	m := c.Miner
+	if m < 0 || m > 2 {
+		m = 0
+	}
+	adb, err := account.NewAccountDB(h.baseRoot[m], h.baseDB)
 	if err != nil {
 		panic(err)
 	}
-	adb.SetBalance(originAddr, new(big.Int).Mul(oneToken, big.NewInt(1000000000)))
-	adb.SetNonce(originAddr, 1)
-	if c.Kind == "call" || c.Miner > 0 {
+	if c.Kind == "call" {
 		adb.SetCode(targetAddr, c.Code)
-		adb.SetNonce(targetAddr, 1)
-		adb.SetBalance(targetAddr, new(big.Int).Mul(oneToken, big.NewInt(100000)))
 	}
 	for _, a := range c.Aux {
 		addr := common.HexToAddress(a.Addr)
 		adb.SetCode(addr, a.Code)
 		adb.SetNonce(addr, 1)
-	}
-	// the miner registries exist on every real chain (genesis miners)
-	mk := func(id byte, typ byte, stake uint64, acct []byte) *types.Miner {
-		mid := make([]byte, 32)
-		mid[0], mid[31] = 0xaa, id
-		return &types.Miner{Id: mid, PublicKey: []byte{1, 2, 3, id}, VrfPublicKey: []byte{4, 5, 6, id}, Type: typ, Stake: stake, Account: acct, Status: common.MinerStatusNormal}
-	}
-	service.MinerManagerImpl.InsertMiner(mk(1, common.MinerTypeValidator, 400, common.HexToAddress("0x00000000000000000000000000000000000000d1").Bytes()), adb)
-	service.MinerManagerImpl.InsertMiner(mk(2, common.MinerTypeProposer, 2000, common.HexToAddress("0x00000000000000000000000000000000000000d2").Bytes()), adb)
-	switch c.Miner {
-	case 1:
-		service.MinerManagerImpl.InsertMiner(mk(3, common.MinerTypeValidator, 1000, targetAddr.Bytes()), adb)
-	case 2:
-		service.MinerManagerImpl.InsertMiner(mk(4, common.MinerTypeProposer, 5000, targetAddr.Bytes()), adb)
 	}
 	return adb
 }
@@ -501,6 +528,9 @@ func (h *harness) exec(c *Case) (res execResult) {
 		adb.SetNonce(originAddr, 1)
 		res.rootNonce = adb.IntermediateRoot(true)
 	}
+	if res.root0 == (common.Hash{}) || res.root0 == h.baseRoot[0] && len(c.Code) > 0 && c.Kind == "call" {
+		res.viol = append(res.viol, pending{"machinery", "pre-state root does not reflect the case's contracts"})
+	}
 	return
 }
 
@@ -522,9 +552,13 @@ func (h *harness) run(c *Case) {
 	r.Count("cases:"+c.Fam, 1)
 	if res.panicSite != "" {
 		r.Count("host_panics", 1)
-		min := h.minimize(c, res.panicSite)
+		var min *Case
+		if h.minimized[res.panicSite] < 3 { // bounded effort: the first few witnesses per site
+			h.minimized[res.panicSite]++
+			min = h.minimize(c, res.panicSite)
+		}
 		r.Violation("C11:host-panic:"+res.panicSite, fmt.Sprintf("the host panicked while executing contract code: %s", res.panicMsg),
-			h.witness(c, map[string]interface{}{"panic": res.panicMsg, "stack": trim(res.panicStack, 2500), "minimized": min}))
+			h.witness(c, map[string]interface{}{"panic": res.panicMsg, "stack": cleanStack(res.panicStack, 2500), "minimized": min}))
 		return
 	}
 	if c.Kind == "pre" {
@@ -670,6 +704,25 @@ func auxBytes(c *Case) []byte {
 	}
 	b = append(b, byte(c.Miner))
 	return b
+}
+
+var (
+	reHexArgs = regexp.MustCompile(`\((?:0x[0-9a-f]+\??|\{[^)]*\}|\.\.\.|, )*\)`)
+	reHexNum  = regexp.MustCompile(`0x[0-9a-f]{5,}\??`)
+	reGorNum  = regexp.MustCompile(`goroutine \d+`)
+	rePlusOff = regexp.MustCompile(` \+0x[0-9a-f]+`)
+	reFpSp    = regexp.MustCompile(` fp=\S+ sp=\S+ pc=\S+`)
+)
+
+// cleanStack strips addresses and goroutine numbers so that the same crash
+// gives the same witness text (and replay file name) in every run.
+func cleanStack(s string, n int) string {
+	s = reFpSp.ReplaceAllString(s, "")
+	s = reHexArgs.ReplaceAllString(s, "(...)")
+	s = reHexNum.ReplaceAllString(s, "0x…")
+	s = reGorNum.ReplaceAllString(s, "goroutine N")
+	s = rePlusOff.ReplaceAllString(s, "")
+	return trim(s, n)
 }
 
 func trim(s string, n int) string {
@@ -823,11 +876,35 @@ type shardState struct {
 	crashes int
 }
 
-func fatalSignature(res mon.ChildResult, lc *logged) string {
-	site := mon.FatalSite(res.LogTail)
+// crashLog returns the part of a dead child's output that starts at the fatal
+// error (the tail alone is usually the dump of unrelated goroutines).
+func crashLog(res mon.ChildResult) string {
+	b, err := os.ReadFile(res.LogFile)
+	if err != nil {
+		return res.LogTail
+	}
+	log := string(b)
+	best := -1
+	for _, key := range []string{"fatal error:", "panic:", "runtime: out of memory", "runtime: cannot allocate"} {
+		if i := strings.Index(log, key); i >= 0 && (best < 0 || i < best) {
+			best = i
+		}
+	}
+	if best < 0 {
+		return res.LogTail
+	}
+	return trim(log[best:], 8000)
+}
+
+func fatalSignature(log string, lc *logged) string {
+	site := mon.FatalSite(log)
 	// prefer the opcode-level frame when the dump shows one
-	if i := strings.Index(res.LogTail, "goroutine "); i >= 0 {
-		if m := reOpFrame.FindStringSubmatch(res.LogTail[i:]); m != nil {
+	if i := strings.Index(log, "goroutine "); i >= 0 {
+		end := len(log)
+		if j := strings.Index(log[i+1:], "\ngoroutine "); j >= 0 {
+			end = i + 1 + j // first goroutine only: the one that died
+		}
+		if m := reOpFrame.FindStringSubmatch(log[i:end]); m != nil {
 			if k := strings.Index(site, "@"); k >= 0 {
 				site = site[:k+1] + m[1]
 			} else {
@@ -836,8 +913,8 @@ func fatalSignature(res mon.ChildResult, lc *logged) string {
 		}
 	}
 	sig := "C11:host-fatal:" + site
-	if lc != nil && lc.Case != nil && lc.Case.Tag != "" {
-		sig += ":" + lc.Case.Tag
+	if lc != nil && lc.Case != nil && lc.Case.Site != "" {
+		sig += ":" + lc.Case.Site
 	}
 	return sig
 }
@@ -849,15 +926,18 @@ func superviseCrash(r *mon.Run, res mon.ChildResult) (lc *logged) {
 			lc = &l
 		}
 	}
-	what := fmt.Sprintf("the child process executing contract code died (exit %d): %s", res.Exit, firstFatalLine(res.LogTail))
-	w := map[string]interface{}{"args": res.Spec.Args, "log_tail": trim(headOfFatal(res.LogTail), 3000)}
+	log := crashLog(res)
+	what := fmt.Sprintf("the child process executing contract code died (exit %d): %s", res.Exit, reInUse.ReplaceAllString(firstFatalLine(log), ""))
+	w := map[string]interface{}{"log": reInUse.ReplaceAllString(cleanStack(log, 3000), "")}
 	if lc != nil {
 		w["case"] = lc.Case
 	}
-	r.Violation(fatalSignature(res, lc), what, w)
+	r.Violation(fatalSignature(log, lc), what, w)
 	r.Count("child_crashes", 1)
 	return lc
 }
+
+var reInUse = regexp.MustCompile(` \(\d+ in use\)`)
 
 func firstFatalLine(log string) string {
 	for _, l := range strings.Split(log, "\n") {
@@ -866,15 +946,6 @@ func firstFatalLine(log string) string {
 		}
 	}
 	return trim(log, 120)
-}
-
-func headOfFatal(log string) string {
-	for _, key := range []string{"fatal error:", "panic:"} {
-		if i := strings.Index(log, key); i >= 0 {
-			return log[i:]
-		}
-	}
-	return log
 }
 
 var opAgg = map[string]*opFile{}
